@@ -4,6 +4,7 @@
 package h
 
 import (
+	"math/big"
 	"encoding/json"
 	"fmt"
 	"math"
@@ -544,4 +545,75 @@ outer:
 		return false
 	}
 	return true
+}
+
+// exactRat is the mathematical value of a Go number.
+func exactRat(v any) (*big.Rat, bool) {
+	switch x := v.(type) {
+	case float64:
+		if math.IsNaN(x) || math.IsInf(x, 0) {
+			return nil, false
+		}
+		return new(big.Rat).SetFloat64(x), true
+	case float32:
+		return new(big.Rat).SetFloat64(float64(x)), true
+	case int:
+		return new(big.Rat).SetInt64(int64(x)), true
+	case int64:
+		return new(big.Rat).SetInt64(x), true
+	case int32:
+		return new(big.Rat).SetInt64(int64(x)), true
+	case int16:
+		return new(big.Rat).SetInt64(int64(x)), true
+	case int8:
+		return new(big.Rat).SetInt64(int64(x)), true
+	case uint:
+		return new(big.Rat).SetInt(new(big.Int).SetUint64(uint64(x))), true
+	case uint64:
+		return new(big.Rat).SetInt(new(big.Int).SetUint64(x)), true
+	case uint32:
+		return new(big.Rat).SetInt64(int64(x)), true
+	case uint16:
+		return new(big.Rat).SetInt64(int64(x)), true
+	case uint8:
+		return new(big.Rat).SetInt64(int64(x)), true
+	}
+	return nil, false
+}
+
+// ExactEqual compares two plain values (maps, slices, scalars) with numbers compared by their exact mathematical
+// values - no tolerance: for cases whose numbers lie one unit in the last place apart.
+func ExactEqual(got, want any) bool {
+	if a, ok := exactRat(got); ok {
+		b, ok := exactRat(want)
+		return ok && a.Cmp(b) == 0
+	}
+	switch w := want.(type) {
+	case nil:
+		return got == nil
+	case []any:
+		g, ok := got.([]any)
+		if !ok || len(g) != len(w) {
+			return false
+		}
+		for i := range g {
+			if !ExactEqual(g[i], w[i]) {
+				return false
+			}
+		}
+		return true
+	case map[string]any:
+		g, ok := got.(map[string]any)
+		if !ok || len(g) != len(w) {
+			return false
+		}
+		for k, x := range w {
+			y, ok := g[k]
+			if !ok || !ExactEqual(y, x) {
+				return false
+			}
+		}
+		return true
+	}
+	return reflect.DeepEqual(got, want)
 }
